@@ -185,6 +185,7 @@ type Frame struct {
 	callPath  string
 	loops     map[*ssa.BasicBlock]*loopCtx
 	callerStack []*ssa.Function
+	nilFlags  map[ssa.Value]Term
 }
 
 type loopCtx struct {
